@@ -1,0 +1,21 @@
+//go:build verif
+
+package gjkr
+
+// Thin exported accessor used by the out-of-tree verification harness (property C14).
+// No behaviour of its own.
+
+import (
+	"github.com/keep-network/keep-core/pkg/net"
+	"github.com/keep-network/keep-core/pkg/protocol/state"
+)
+
+// VerifC14InitialState returns the first state of the protocol for the given member, exactly
+// as Execute builds it. The harness walks the chain of states through Next() to read the
+// DelayBlocks / ActiveBlocks of every state.
+func VerifC14InitialState(channel net.BroadcastChannel, member *LocalMember) state.SyncState {
+	return &ephemeralKeyPairGenerationState{
+		channel: channel,
+		member:  member.InitializeEphemeralKeysGeneration(),
+	}
+}
